@@ -652,12 +652,6 @@ impl BuiltInFunction {
                     unreachable!()
                 };
 
-                let s = if s.starts_with("0x") {
-                    s.get(2..).unwrap_or_default()
-                } else {
-                    s
-                };
-
                 let radix: u32 = (*radix)
                     .try_into()
                     .with_context(|| format!("`{radix}` is an invalid radix"))?;
@@ -665,6 +659,13 @@ impl BuiltInFunction {
                 if !(2..=36).contains(&radix) {
                     bail!("`{radix}` is an invalid radix (valid: 2 through 36)")
                 }
+
+                // `0x` announces hexadecimal digits: in any other radix it is part of the text
+                // (`0` and `x` are digits in radix 34 and up, and not a number below that)
+                let s = match s.strip_prefix("0x") {
+                    Some(hex) if radix == 16 => hex,
+                    _ => s,
+                };
 
                 if let Ok(num) = i32::from_str_radix(s, radix) {
                     Ok((
@@ -684,12 +685,6 @@ impl BuiltInFunction {
                     unreachable!()
                 };
 
-                let s = if s.starts_with("0x") {
-                    s.get(2..).unwrap_or_default()
-                } else {
-                    s
-                };
-
                 let radix: u32 = (*radix)
                     .try_into()
                     .with_context(|| format!("`{radix}` is an invalid radix"))?;
@@ -697,6 +692,13 @@ impl BuiltInFunction {
                 if !(2..=36).contains(&radix) {
                     bail!("`{radix}` is an invalid radix (valid: 2 through 36)")
                 }
+
+                // `0x` announces hexadecimal digits: in any other radix it is part of the text
+                // (`0` and `x` are digits in radix 34 and up, and not a number below that)
+                let s = match s.strip_prefix("0x") {
+                    Some(hex) if radix == 16 => hex,
+                    _ => s,
+                };
 
                 if let Ok(num) = i128::from_str_radix(s, radix) {
                     Ok((
